@@ -135,6 +135,11 @@ def hash_mutable(obj) -> int:
     if isinstance(obj, slice):
         return hash((obj.start, obj.stop, obj.step))
 
+    if isinstance(obj, numbers.Number) and not isinstance(obj, bool):
+        # hash numbers by their representation, since the hashes of different numbers
+        # can coincide, e.g., `hash(-1) == hash(-2)` in CPython
+        return hash((obj.__class__.__name__, repr(obj)))
+
     try:
         # try using the internal hash function
         return hash(obj)
